@@ -41,8 +41,8 @@ theorem forced_ok_unforced_ok_or_conflict (u : Updater) (sc : Schema) (live cfg 
       ∃ c, c ≠ [] ∧ apply u sc live cfg ver m mgr false = .conflict c :=
   apply_forced_ok u sc live cfg ver m mgr r
 
-/-- every reported pair names a manager other than the applier that is in the managed fields, and
-a path that this manager owned (membership up to path-element equivalence) -/
+/-- every reported pair names a manager other than the applier (that the manager is recorded and owned
+the path is part of `conflicts_exact`, C04Exact.lean) -/
 theorem conflict_pairs_are_owned_by_others (sc : Schema) (live cfg : TV) (ver : String) (m : Managed)
     (mgr : String) (c : List (String × Path)) (u : Updater) :
     apply u sc live cfg ver m mgr false = .conflict c →
